@@ -106,6 +106,9 @@ func (t *InnerSplitTopo) SplitAt(key []byte) bool {
 func (t *InnerSplitTopo) MoveLeaderOf(key []byte) bool { return t.Cl.MoveLeaderOf(key) }
 
 // MergeAt merges the region containing key with its right neighbour.
+func (t *InnerSplitTopo) MergeAt(key []byte) bool { return t.Cl.MergeAt(key) }
+
+// MergeAt merges the region containing key with its right neighbour.
 func (cl *Cluster) MergeAt(key []byte) bool {
 	region, _, _, _ := cl.C.GetRegionByKey(mocktikv.NewMvccKey(key))
 	if region == nil || len(region.EndKey) == 0 {
